@@ -263,6 +263,10 @@ def run(ctx: Ctx):
         if 'history' in c:
             for key, desc in run_history((c['history'], c['start'])):
                 ctx.violation(key, desc, c)
+        if 'pair' in c:
+            for key, desc, pair in mission_distances()[0]:
+                if list(pair) == list(c['pair']):
+                    ctx.violation(key, desc, c)
         return
     tlc.check(ctx, 'geo/GroundTrack', 'geo/MC_GroundTrack.cfg', workers=8)
     cases = tlc.check(ctx, 'geo/GroundTrackGen', 'geo/Gen_GroundTrack.cfg', workers=8)['emitted']
